@@ -91,7 +91,7 @@ def sStep (s : List Vrp) : Op → List Vrp
   | .reset c vs => sReset s c vs
   | .val _ _ => s
   | .iter _ => s
-  | .display _ _ _ => s
+  | .display _ _ _ _ => s
 
 /-! ### the checker -/
 
@@ -159,7 +159,7 @@ def checkIter (s : List Vrp) (f : Fam) (ob : Ob) : Option String :=
   | _ => some "observation-kind"
 
 /-- walk the operations, consuming one observation per `val` / `iter` -/
-def checkFrom (localAsn : Nat) : Nat → List Vrp → List Op → List Ob → Verdict
+def checkFrom (localAsn globalAsn : Nat) : Nat → List Vrp → List Op → List Ob → Verdict
   | _, _, [], [] => .ok
   | i, _, [], _ :: _ => .fail i "observation-count"
   | i, s, op :: ops, obs =>
@@ -170,28 +170,30 @@ def checkFrom (localAsn : Nat) : Nat → List Vrp → List Op → List Ob → Ve
           | ob :: obs' =>
               match checkVal s localAsn r path ob with
               | some c => .fail i c
-              | none => checkFrom localAsn (i + 1) s ops obs'
+              | none => checkFrom localAsn globalAsn (i + 1) s ops obs'
       | .iter f =>
           match obs with
           | [] => .fail i "observation-count"
           | ob :: obs' =>
               match checkIter s f ob with
               | some c => .fail i c
-              | none => checkFrom localAsn (i + 1) s ops obs'
-      | .display st r path =>
+              | none => checkFrom localAsn globalAsn (i + 1) s ops obs'
+      | .display loc st r path =>
           match obs with
           | [] => .fail i "observation-count"
           | ob :: obs' =>
-              match checkShow s localAsn st r path ob with
+              -- "the speaker's own AS": the global AS for a locally originated route, the
+              -- session's local AS for a route learned from a peer
+              match checkShow s (if loc then globalAsn else localAsn) st r path ob with
               | some c => .fail i c
-              | none => checkFrom localAsn (i + 1) s ops obs'
-      | .ins c n ml a => checkFrom localAsn (i + 1) (sStep s (.ins c n ml a)) ops obs
-      | .rem c n ml a => checkFrom localAsn (i + 1) (sStep s (.rem c n ml a)) ops obs
-      | .drop c => checkFrom localAsn (i + 1) (sStep s (.drop c)) ops obs
-      | .reset c vs => checkFrom localAsn (i + 1) (sStep s (.reset c vs)) ops obs
+              | none => checkFrom localAsn globalAsn (i + 1) s ops obs'
+      | .ins c n ml a => checkFrom localAsn globalAsn (i + 1) (sStep s (.ins c n ml a)) ops obs
+      | .rem c n ml a => checkFrom localAsn globalAsn (i + 1) (sStep s (.rem c n ml a)) ops obs
+      | .drop c => checkFrom localAsn globalAsn (i + 1) (sStep s (.drop c)) ops obs
+      | .reset c vs => checkFrom localAsn globalAsn (i + 1) (sStep s (.reset c vs)) ops obs
 
 def check (c : Case) : Out (List Ob) → Verdict
   | .panic => .fail 0 "panic"
-  | .ok obs => checkFrom c.localAsn 0 [] c.ops obs
+  | .ok obs => checkFrom c.localAsn c.globalAsn 0 [] c.ops obs
 
 end Rbgp.Rpki.Spec
